@@ -44,6 +44,23 @@ Theorem stft_fbf_eq_full :
 Proof. exact @fbf_eq_full_l. Qed.
 Print Assumptions stft_fbf_eq_full.
 
+(* ======================= tie to the source ======================= *)
+(* the model's compute_chunk / finalize / compute_full are, expression by expression, what
+   gen/stft.py extracts from compute.py on this run (coq/gen/StftK.v) *)
+From Verif Require Import Stft.Tie.
+Theorem stft_model_is_source_compute_chunk :
+  forall (A : Type) (c : cfg) (s : st A) (chunk : list A), compute_chunk_src c s chunk = compute_chunk c s chunk.
+Proof. exact @compute_chunk_tie. Qed.
+Print Assumptions stft_model_is_source_compute_chunk.
+Theorem stft_model_is_source_finalize :
+  forall (A : Type) (c : cfg) (s : st A), finalize_src c s = finalize c s.
+Proof. exact @finalize_tie. Qed.
+Print Assumptions stft_model_is_source_finalize.
+Theorem stft_model_is_source_compute_full :
+  forall (A : Type) (c : cfg) (x : list A), full_frames_src c x = full_frames c x.
+Proof. exact @full_frames_tie. Qed.
+Print Assumptions stft_model_is_source_compute_full.
+
 (* ======================= short-integration computer ======================= *)
 (* model coq/C03/Model.v (statement-by-statement, incl. the overlap-save ring buffer);
    proofs in coq/C03.  K is any number type with an associative + with unit. *)
